@@ -198,6 +198,35 @@ async def _(c):
         c.mark(label + ':e')
 
 
+class _Tally:
+    """a user's value type: mutable (hence unhashable: it defines `__eq__`), its operators update and return the object itself"""
+    def __init__(self, n):
+        self.n = n
+
+    def __eq__(self, other):
+        return isinstance(other, _Tally) and other.n == self.n
+
+    __hash__ = None
+
+    def __add__(self, k):
+        self.n += k
+        return self
+
+    def __ge__(self, k):
+        return self.n >= k
+
+
+@op('tracked_user_value_type')
+async def _(c):
+    # the tracked value is an object of the user's own: set / operators are updates like any other
+    t = Tracked(_Tally(c.p['v']))
+    for label, mk in (('add_in_place', lambda: t + 1), ('add_zero', lambda: t + 0), ('set_same_object', lambda: t.set(t.value)),
+                      ('set_equal_object', lambda: t.set(_Tally(t.value.n)))):
+        c.mark(label + ':s')
+        await mk()
+        c.mark(label + ':e')
+
+
 @op('queue_ops')
 async def _(c):
     q = Queue()
